@@ -245,7 +245,9 @@ func applyIfExistsConfig(t rel.Tuple, dir string, fs afero.Fs, dryRun bool) (err
 			return err
 		}
 		if dryRun {
-			return nil
+			// the replacement must be valid before anything is removed; it will be
+			// written where nothing exists any more
+			return applyFilesFields(t, dir, afero.NewMemMapFs(), true)
 		}
 		if err := fs.RemoveAll(dir); err != nil {
 			return err
@@ -261,6 +263,10 @@ func applyIfExistsConfig(t rel.Tuple, dir string, fs afero.Fs, dryRun bool) (err
 		}
 		return errors.Errorf("%s: '%s' field must exist", ifExistsConfig, dirField)
 	case ifExistsIgnore:
+		if dryRun {
+			// an ignored entry must still be a valid description (whatever exists)
+			return applyFilesFields(t, dir, afero.NewMemMapFs(), true)
+		}
 		return nil
 	case ifExistsFail:
 		return errors.Errorf("%s: '%s' exists", ifExistsConfig, dir)
